@@ -227,7 +227,11 @@ class LogPublisher(Referenceable):
         if not name.startswith("incident"):
             raise KeyError("bad incident name %s" % name)
         incident_dir = filepath.FilePath(self._logger.logdir)
-        abs_fn = incident_dir.child(name).path + ".flog"
+        fp = incident_dir.child(name)
+        if fp.parent() != incident_dir:
+            # e.g. "incident/..", which denotes the directory itself
+            raise KeyError("bad incident name %s" % name)
+        abs_fn = fp.path + ".flog"
         try:
             fn = abs_fn + ".bz2"
             if not os.path.exists(fn):
